@@ -8,7 +8,7 @@
 From Coq Require Import List NArith Bool Lia.
 From Conductor Require Import Lib.Regex.
 Import ListNotations.
-Open Scope N_scope.
+Local Open Scope N_scope.
 
 Fixpoint memN (x : N) (l : list N) : bool :=
   match l with [] => false | y :: l' => (x =? y) || memN x l' end.
